@@ -172,6 +172,8 @@ def minimise(run, trace, rule, seconds=MAX_SECONDS):
     try_cfg(set_cfg("hasher", "Fixed"))
     if cur["config"].get("shards") is not None:
         try_cfg(set_cfg("shards", None))
+    if cur["config"].get("wlock_sp"):
+        try_cfg(set_cfg("wlock_sp", False))
     try_cfg(set_cfg("tti", None))
     try_cfg(set_cfg("ttl", None))
     try_cfg(set_cfg("weigher", False))
